@@ -64,6 +64,8 @@ func bases() []base {
 	out = append(out,
 		base{Name: "memory body", CT: "application/x-www-form-urlencoded", Body: "a=1&b=2"},
 		base{Name: "spilled body", Conf: "SecRequestBodyInMemoryLimit 4\n", CT: "application/x-www-form-urlencoded", Body: "a=1&b=2&c=33333333"},
+		// the first chunk (9 bytes) stays in memory, the second one spills: the dump of the memory part is a write of its own
+		base{Name: "body spilled by its second chunk", Conf: "SecRequestBodyInMemoryLimit 12\n", CT: "application/x-www-form-urlencoded", Body: "a=1&b=2&c=33333333"},
 		base{Name: "spilled body, ProcessPartial", Conf: "SecRequestBodyInMemoryLimit 4\nSecRequestBodyLimit 12\nSecRequestBodyLimitAction ProcessPartial\n", CT: "application/x-www-form-urlencoded", Body: "a=1&b=2&c=33333333"},
 		base{Name: "spilled body, Reject", Conf: "SecRequestBodyInMemoryLimit 4\nSecRequestBodyLimit 12\nSecRequestBodyLimitAction Reject\n", CT: "application/x-www-form-urlencoded", Body: "a=1&b=2&c=33333333"},
 		base{Name: "malformed JSON", CT: "application/json", Body: `{"a":`, Flags: "json", BadBody: true},
